@@ -383,7 +383,21 @@ def _step_rule_method(ctx, rep, fn, direction, keylen, se, half):
     fp = [c for c in u8s if c != fi][0]
     env = {("field", sp, fi): "idx", ("field", sp, fp): "prev", in_term: "in", ("field", sp, kf[0]): "key"}
     out = arith.norm(out_terms[0], env)
-    nidx = _select(se, upd[fi], env)
+    # `% self.key.len() as u8` with the key handed on as a slice: the length of the key field
+    # is the length of its array type
+    klen_ty = tys[kf[0]].len if tys[kf[0]].k == "array" else None
+
+    def fold_key_len(x):
+        if util.is_call(x) and x[1].endswith("<impl [T]>::len") and len(x[2]) == 1 and klen_ty is not None:
+            y = strip(x[2][0])
+            while util.is_call(y) and y[1] in util.IDENT_CALLS and len(y[2]) == 1:
+                y = strip(y[2][0])
+            if y == ("field", sp, kf[0]):
+                return ("int", klen_ty, "usize")
+        return None
+
+    upd_i = util.map_term(upd[fi], fold_key_len) if isinstance(upd[fi], tuple) else upd[fi]
+    nidx = _select(se, upd_i, env)
     nprev = arith.norm(upd[fp], env)
     kb = ("idx", S("key"), S("idx"))
     if direction == "enc":
